@@ -176,6 +176,11 @@ func drawC06(t *rapid.T) C06Case {
 	if wide {
 		tree = gen.SplitIntoTreeMin(t, gen.Shuffle(t, j.Directives), 4, 8)
 	}
+	if !wide && rapid.IntRange(0, 9).Draw(t, "deepDiamond") == 0 {
+		// a deep include chain ending in two sibling files one of which also includes the other (a legal
+		// diamond: the shared file holds transactions only, so including it twice keeps the journal valid)
+		tree = c06DeepDiamond(t, j)
+	}
 	c := C06Case{Files: tree.Files, Runs: 6}
 	if thorough() {
 		c.Runs = 24
@@ -291,6 +296,41 @@ func drawC06(t *rapid.T) C06Case {
 		c.Ties = append(c.Ties, "tie:many-new-names-in-several-files")
 	}
 	return c
+}
+
+// c06DeepDiamond: main → l1 → … → l(depth) → {f, g}, f → g; opens and prices stay in main.
+func c06DeepDiamond(t *rapid.T, j ref.Journal) gen.Tree {
+	depth := rapid.IntRange(3, 7).Draw(t, "chainDepth")
+	var head, shared, rest []ref.Directive
+	for _, d := range j.Directives {
+		switch {
+		case d.Kind != ref.KTrx:
+			head = append(head, d)
+		case d.Accrual == nil && len(shared) < 2:
+			shared = append(shared, d)
+		default:
+			rest = append(rest, d)
+		}
+	}
+	files := map[string]string{}
+	name := func(i int) string { return fmt.Sprintf("l%d/c%d.knut", i, i) }
+	files["main.knut"] = ref.RenderAll(head) + "include \"" + name(1) + "\"\n"
+	for i := 1; i <= depth; i++ {
+		var body string
+		if i == 1 {
+			body = ref.RenderAll(rest)
+		}
+		if i < depth {
+			// relative to the directory of the including file
+			body += fmt.Sprintf("include \"../l%d/c%d.knut\"\n", i+1, i+1)
+		} else {
+			body += "include \"f.knut\"\ninclude \"g.knut\"\n"
+		}
+		files[name(i)] = body
+	}
+	files[fmt.Sprintf("l%d/f.knut", depth)] = "include \"g.knut\"\n"
+	files[fmt.Sprintf("l%d/g.knut", depth)] = ref.RenderAll(shared)
+	return gen.Tree{Files: files, Main: "main.knut", Depth: depth + 1}
 }
 
 func TestC06(t *testing.T) {
